@@ -268,7 +268,9 @@ func NewFixture(n, t int, seed uint64, base time.Time) *Fixture {
 // UseKeyVariant selects the sharing that matches the polynomial the round
 // ended up with (variant of the accepted key announcements).
 func (f *Fixture) UseKeyVariant(v int) {
-	if v == 0 {
+	if v == 0 || v == 3 {
+		// variant 3 announces another key but the first polynomial, which is
+		// what reconstruction uses
 		f.SignShares, f.SignKey = f.Shares, f.GroupKey
 	} else {
 		f.SignShares, f.SignKey = f.otherShares, f.OtherKey
@@ -377,6 +379,8 @@ func (f *Fixture) Message(e Ev, offset int) storage.Message {
 			r.MasterKey, r.PubPolyBz = f.OtherKey, f.OtherPolyBz
 		case 2:
 			r.PubPolyBz = f.OtherPolyBz
+		case 3: // another group key next to the common polynomial
+			r.MasterKey = f.OtherKey
 		}
 		if e.Empty {
 			r.MasterKey = nil
